@@ -260,9 +260,16 @@ class Formatter(BasicWalker[Retype]):
             elif not 32 <= ord(char) < 127:
                 contains_unprintable = True
         # do not use multiline strings if the number of newlines is too low
-        if newline_count > self.s.NEWLINE_LIMIT and not contains_unprintable:
+        if (
+            newline_count > self.s.NEWLINE_LIMIT
+            and not contains_unprintable
+            # trailing blanks of a line would be stripped from the output
+            and " \n" not in node.value
+        ):
             level: int = self._find_level(node.value)
-            return [f"[{'=' * level}[{node.value}]{'=' * level}]"]
+            # Lua skips a newline directly after the opening bracket
+            start: str = "\n" if node.value.startswith("\n") else ""
+            return [f"[{'=' * level}[{start}{node.value}]{'=' * level}]"]
         if self.s.USE_SINGLE_QUOTE and single_quote_count < double_quote_count:
             quote = "'"
         for char in node.value:
